@@ -1,2 +1,353 @@
+//! C16 – comparison functions and macros agree with std equality and ordering.
 use crate::common::*;
-pub fn run(_cfg: &Cfg) -> (&'static str, Report, String, String) { ("C16", Report::new(), String::new(), String::new()) }
+use core::cmp::Ordering;
+use core::marker::{PhantomData, PhantomPinned};
+use core::num::*;
+use konst::{assertc_eq, assertc_ne, const_cmp, const_cmp_for, const_eq, const_eq_for};
+
+fn ck_eq(r: &mut Report, api: &'static str, input: impl Fn() -> String, got: bool, want: bool) {
+    r.ev(api);
+    if got != want {
+        r.fail(api, api, input(), format!("{}", got), format!("{}", want));
+    }
+}
+fn ck_ord(r: &mut Report, api: &'static str, input: impl Fn() -> String, got: Ordering, want: Ordering) {
+    r.ev(api);
+    if got != want {
+        r.fail(api, api, input(), format!("{:?}", got), format!("{:?}", want));
+    }
+}
+
+/// order laws evaluated on konst's own results
+fn laws<T: std::fmt::Debug>(r: &mut Report, api: &'static str, xs: &[T], cmp: &dyn Fn(&T, &T) -> Ordering, eq: &dyn Fn(&T, &T) -> bool) {
+    let n = xs.len();
+    let mut m = vec![Ordering::Equal; n * n];
+    for i in 0..n {
+        for j in 0..n {
+            m[i * n + j] = cmp(&xs[i], &xs[j]);
+        }
+    }
+    for i in 0..n {
+        for j in 0..n {
+            r.ev("law:antisymmetry+eq-consistency");
+            if m[i * n + j] != m[j * n + i].reverse() {
+                r.fail("law:antisymmetry", api, format!("a={:?} b={:?}", xs[i], xs[j]), format!("cmp(a,b)={:?} cmp(b,a)={:?}", m[i * n + j], m[j * n + i]), "cmp(a,b) == cmp(b,a).reverse()".into());
+            }
+            if (m[i * n + j] == Ordering::Equal) != eq(&xs[i], &xs[j]) {
+                r.fail("law:cmp-equal-iff-eq", api, format!("a={:?} b={:?}", xs[i], xs[j]), format!("cmp={:?} eq={}", m[i * n + j], eq(&xs[i], &xs[j])), "cmp == Equal exactly when eq".into());
+            }
+            for k in 0..n {
+                if m[i * n + j] != Ordering::Greater && m[j * n + k] != Ordering::Greater {
+                    r.ev("law:transitivity");
+                    if m[i * n + k] == Ordering::Greater {
+                        r.fail("law:transitivity", api, format!("a={:?} b={:?} c={:?}", xs[i], xs[j], xs[k]), "a<=b, b<=c but a>c".into(), "a<=c".into());
+                    }
+                }
+            }
+        }
+    }
+}
+
+fn slices_upto<T: Copy>(vals: &[T], maxlen: usize) -> Vec<Vec<T>> {
+    let mut out = vec![vec![]];
+    let mut prev: Vec<Vec<T>> = vec![vec![]];
+    for _ in 0..maxlen {
+        let mut cur = Vec::new();
+        for p in &prev {
+            for v in vals {
+                let mut x = p.clone();
+                x.push(*v);
+                cur.push(x);
+            }
+        }
+        out.extend(cur.iter().cloned());
+        prev = cur;
+    }
+    out
+}
+
+macro_rules! prim {
+    ($r:expr, $cfg:expr, $t:ty, $name:literal, $vals:expr, $three:expr,
+     $cmp:ident, $eqo:ident, $cmpo:ident, $eqs:ident, $cmps:ident, $eqos:ident, $cmpos:ident) => {{
+        use konst::primitive::cmp::{$cmp, $cmpo, $eqo};
+        use konst::slice::cmp::{$cmps, $cmpos, $eqos, $eqs};
+        let vals: Vec<$t> = $vals;
+        let r: &mut Report = $r;
+        for &a in &vals {
+            for &b in &vals {
+                let inp = || format!("T={} a={:?} b={:?}", $name, a, b);
+                ck_ord(r, concat!("cmp_", $name), inp, $cmp(a, b), a.cmp(&b));
+                ck_eq(r, "const_eq!(prim)", inp, const_eq!(a, b), a == b);
+                ck_ord(r, "const_cmp!(prim)", inp, const_cmp!(a, b), a.cmp(&b));
+                r.nt(&($name, format!("{:?}{:?}", a, b)));
+                for (oa, ob) in [(Some(a), Some(b)), (Some(a), None), (None, Some(b)), (None, None)] {
+                    let inp = || format!("T=Option<{}> a={:?} b={:?}", $name, oa, ob);
+                    ck_eq(r, concat!("eq_option_", $name), inp, $eqo(oa, ob), oa == ob);
+                    ck_ord(r, concat!("cmp_option_", $name), inp, $cmpo(oa, ob), oa.cmp(&ob));
+                    ck_eq(r, "const_eq!(option)", inp, const_eq!(oa, ob), oa == ob);
+                    ck_ord(r, "const_cmp!(option)", inp, const_cmp!(oa, ob), oa.cmp(&ob));
+                    ck_eq(r, "const_eq_for!(option)", inp, const_eq_for!(option; oa, ob), oa == ob);
+                    ck_eq(r, "const_eq_for!(option;|a,b|)", inp, const_eq_for!(option; oa, ob, |x, y| *x == *y), oa == ob);
+                    ck_ord(r, "const_cmp_for!(option)", inp, const_cmp_for!(option; oa, ob), oa.cmp(&ob));
+                    ck_ord(r, "const_cmp_for!(option;|a,b|)", inp, const_cmp_for!(option; oa, ob, |x, y| $cmp(*x, *y)), oa.cmp(&ob));
+                }
+                // arrays of length 2
+                for &c in &$three {
+                    let (x, y): ([$t; 2], [$t; 2]) = ([a, c], [b, c]);
+                    let inp = || format!("T=[{};2] a={:?} b={:?}", $name, x, y);
+                    ck_eq(r, "const_eq!(array)", inp, const_eq!(x, y), x == y);
+                    ck_ord(r, "const_cmp!(array)", inp, const_cmp!(x, y), x.cmp(&y));
+                    let (x, y): ([$t; 2], [$t; 2]) = ([c, a], [c, b]);
+                    ck_eq(r, "const_eq!(array)", inp, const_eq!(x, y), x == y);
+                    ck_ord(r, "const_cmp!(array)", inp, const_cmp!(x, y), x.cmp(&y));
+                }
+            }
+        }
+        let three: [$t; 3] = $three;
+        let sl: Vec<Vec<$t>> = slices_upto(&three, $cfg.by(2, 3, 4));
+        for a in &sl {
+            for b in &sl {
+                let (a, b): (&[$t], &[$t]) = (a, b);
+                let inp = || format!("T=[{}] a={:?} b={:?}", $name, a, b);
+                ck_eq(r, concat!("eq_slice_", $name), inp, $eqs(a, b), a == b);
+                ck_ord(r, concat!("cmp_slice_", $name), inp, $cmps(a, b), a.cmp(b));
+                ck_eq(r, "const_eq!(slice)", inp, const_eq!(a, b), a == b);
+                ck_ord(r, "const_cmp!(slice)", inp, const_cmp!(a, b), a.cmp(b));
+                ck_eq(r, "const_eq_for!(slice)", inp, const_eq_for!(slice; a, b), a == b);
+                ck_eq(r, "const_eq_for!(slice;|a|key)", inp, const_eq_for!(slice; a, b, |x| *x), a == b);
+                ck_eq(r, "const_eq_for!(slice;|a,b|)", inp, const_eq_for!(slice; a, b, |x, y| *x == *y), a == b);
+                ck_ord(r, "const_cmp_for!(slice)", inp, const_cmp_for!(slice; a, b), a.cmp(b));
+                ck_ord(r, "const_cmp_for!(slice;|a|key)", inp, const_cmp_for!(slice; a, b, |x| *x), a.cmp(b));
+                ck_ord(r, "const_cmp_for!(slice;|a,b|)", inp, const_cmp_for!(slice; a, b, |x, y| $cmp(*x, *y)), a.cmp(b));
+                if a.len() != b.len() && !a.is_empty() && !b.is_empty() && a[0] != b[0] {
+                    r.nt(&($name, format!("{:?}|{:?}", a, b)));
+                }
+                for (oa, ob) in [(Some(a), Some(b)), (Some(a), None), (None, Some(b))] {
+                    let inp = || format!("T=Option<&[{}]> a={:?} b={:?}", $name, oa, ob);
+                    ck_eq(r, concat!("eq_option_slice_", $name), inp, $eqos(oa, ob), oa == ob);
+                    ck_ord(r, concat!("cmp_option_slice_", $name), inp, $cmpos(oa, ob), oa.cmp(&ob));
+                }
+            }
+        }
+        laws(r, concat!("cmp_slice_", $name), &sl, &|a, b| $cmps(a, b), &|a, b| $eqs(a, b));
+        laws(r, concat!("cmp_", $name), &vals, &|a, b| $cmp(*a, *b), &|a, b| const_eq!(*a, *b));
+    }};
+}
+
+macro_rules! int_vals {
+    ($t:ty) => {{
+        let mut v: Vec<$t> = vec![<$t>::MIN, <$t>::MIN + 1, 0, 1, <$t>::MAX - 1, <$t>::MAX, 2, 100];
+        #[allow(unused_comparisons)]
+        if <$t>::MIN < 0 {
+            v.push((0 as $t).wrapping_sub(1));
+        }
+        v.sort();
+        v.dedup();
+        v
+    }};
+}
+
+macro_rules! nonzero {
+    ($r:expr, $(($t:ident, $prim:ty, $eq:ident, $cmp:ident, $eqo:ident, $cmpo:ident)),*) => {$({
+        use konst::nonzero::cmp::{$eq, $cmp, $eqo, $cmpo};
+        let vals: Vec<$t> = int_vals!($prim).into_iter().filter_map(<$t>::new).collect();
+        for &a in &vals { for &b in &vals {
+            let inp = || format!("T={} a={:?} b={:?}", stringify!($t), a, b);
+            ck_eq($r, concat!(stringify!($eq)), inp, $eq(a, b), a == b);
+            ck_ord($r, concat!(stringify!($cmp)), inp, $cmp(a, b), a.cmp(&b));
+            ck_eq($r, "const_eq!(nonzero)", inp, const_eq!(a, b), a == b);
+            ck_ord($r, "const_cmp!(nonzero)", inp, const_cmp!(a, b), a.cmp(&b));
+            $r.nt(&(stringify!($t), format!("{:?}{:?}", a, b)));
+            for (oa, ob) in [(Some(a), Some(b)), (Some(a), None), (None, Some(b)), (None, None)] {
+                let inp = || format!("T=Option<{}> a={:?} b={:?}", stringify!($t), oa, ob);
+                ck_eq($r, concat!(stringify!($eqo)), inp, $eqo(oa, ob), oa == ob);
+                ck_ord($r, concat!(stringify!($cmpo)), inp, $cmpo(oa, ob), oa.cmp(&ob));
+                ck_eq($r, "const_eq!(option nonzero)", inp, const_eq!(oa, ob), oa == ob);
+                ck_ord($r, "const_cmp!(option nonzero)", inp, const_cmp!(oa, ob), oa.cmp(&ob));
+            }
+        }}
+        laws($r, stringify!($cmp), &vals, &|a, b| $cmp(*a, *b), &|a, b| $eq(*a, *b));
+    })*};
+}
+
+macro_rules! ranges {
+    ($r:expr, $(($t:ty, $vals:expr, $eqr:ident, $eqri:ident)),*) => {$({
+        use konst::range::cmp::{$eqr, $eqri};
+        let vals: Vec<$t> = $vals;
+        for &a in &vals { for &b in &vals { for &c in &vals { for &d in &vals {
+            let (x, y) = (a..b, c..d);
+            let inp = || format!("T=Range<{}> a={:?} b={:?}", stringify!($t), x, y);
+            ck_eq($r, stringify!($eqr), inp, $eqr(&x, &y), x == y);
+            ck_eq($r, "const_eq!(range)", inp, const_eq!(x, y), x == y);
+            ck_eq($r, "const_eq_for!(range)", inp, const_eq_for!(range; x, y), x == y);
+            ck_eq($r, "const_eq_for!(range;|a|key)", inp, const_eq_for!(range; x, y, |v| *v), x == y);
+            ck_eq($r, "const_eq_for!(range;|a,b|)", inp, const_eq_for!(range; x, y, |v, w| *v == *w), x == y);
+            let (x, y) = (a..=b, c..=d);
+            let inp = || format!("T=RangeInclusive<{}> a={:?} b={:?}", stringify!($t), x, y);
+            ck_eq($r, stringify!($eqri), inp, $eqri(&x, &y), x == y);
+            ck_eq($r, "const_eq!(range_inclusive)", inp, const_eq!(x, y), x == y);
+            ck_eq($r, "const_eq_for!(range_inclusive)", inp, const_eq_for!(range_inclusive; x, y), x == y);
+            ck_eq($r, "const_eq_for!(range_inclusive;|a|key)", inp, const_eq_for!(range_inclusive; x, y, |v| **v), x == y);
+            ck_eq($r, "const_eq_for!(range_inclusive;|a,b|)", inp, const_eq_for!(range_inclusive; x, y, |v, w| **v == **w), x == y);
+            if a == c && b != d { $r.nt(&(stringify!($t), format!("{:?}{:?}", x, y))); }
+        }}}}
+    })*};
+}
+
+fn strings(r: &mut Report, cfg: &Cfg) {
+    let ss = strings_upto(&["a", "b", "ñ", "\u{10FFFF}"], cfg.by(2, 3, 4));
+    let ss: Vec<&str> = ss.iter().map(|x| x.as_str()).collect();
+    for &a in &ss {
+        for &b in &ss {
+            let inp = || format!("T=&str a={:?} b={:?}", a, b);
+            ck_eq(r, "eq_str", inp, konst::eq_str(a, b), a == b);
+            ck_ord(r, "cmp_str", inp, konst::cmp_str(a, b), a.cmp(b));
+            ck_eq(r, "const_eq!(str)", inp, const_eq!(a, b), a == b);
+            ck_ord(r, "const_cmp!(str)", inp, const_cmp!(a, b), a.cmp(b));
+            ck_eq(r, "eq_bytes(str bytes)", inp, konst::slice::eq_bytes(a.as_bytes(), b.as_bytes()), a == b);
+            ck_ord(r, "cmp_bytes(str bytes)", inp, konst::slice::cmp_bytes(a.as_bytes(), b.as_bytes()), a.as_bytes().cmp(b.as_bytes()));
+            if a.len() != b.len() && !a.is_empty() && !b.is_empty() {
+                r.nt(&("str", a, b));
+            }
+            for (oa, ob) in [(Some(a), Some(b)), (Some(a), None), (None, Some(b)), (None, None)] {
+                let inp = || format!("T=Option<&str> a={:?} b={:?}", oa, ob);
+                ck_eq(r, "eq_option_str", inp, konst::eq_option_str(oa, ob), oa == ob);
+                ck_ord(r, "cmp_option_str", inp, konst::cmp_option_str(oa, ob), oa.cmp(&ob));
+                let (ba, bb) = (oa.map(|x| x.as_bytes()), ob.map(|x| x.as_bytes()));
+                ck_eq(r, "eq_option_bytes", inp, konst::slice::eq_option_bytes(ba, bb), ba == bb);
+                ck_ord(r, "cmp_option_bytes", inp, konst::slice::cmp_option_bytes(ba, bb), ba.cmp(&bb));
+            }
+        }
+    }
+    laws(r, "cmp_str", &ss, &|a, b| konst::cmp_str(a, b), &|a, b| konst::eq_str(a, b));
+    // slices of strings / of byte slices
+    let elems = ["", "a", "ab", "b", "ñ"];
+    let sl = slices_upto(&elems, cfg.by(2, 2, 3));
+    for a in &sl {
+        for b in &sl {
+            let (a, b): (&[&str], &[&str]) = (a, b);
+            let inp = || format!("T=[&str] a={:?} b={:?}", a, b);
+            ck_eq(r, "eq_slice_str", inp, konst::slice::cmp::eq_slice_str(a, b), a == b);
+            ck_ord(r, "cmp_slice_str", inp, konst::slice::cmp::cmp_slice_str(a, b), a.cmp(b));
+            ck_eq(r, "const_eq!([&str])", inp, const_eq!(a, b), a == b);
+            ck_ord(r, "const_cmp!([&str])", inp, const_cmp!(a, b), a.cmp(b));
+            ck_eq(r, "const_eq_for!(slice;path)", inp, const_eq_for!(slice; a, b, konst::eq_str), a == b);
+            ck_ord(r, "const_cmp_for!(slice;path)", inp, const_cmp_for!(slice; a, b, konst::cmp_str), a.cmp(b));
+            let ab: Vec<&[u8]> = a.iter().map(|x| x.as_bytes()).collect();
+            let bb: Vec<&[u8]> = b.iter().map(|x| x.as_bytes()).collect();
+            let (ab, bb): (&[&[u8]], &[&[u8]]) = (&ab, &bb);
+            ck_eq(r, "eq_slice_bytes", inp, konst::slice::cmp::eq_slice_bytes(ab, bb), ab == bb);
+            ck_ord(r, "cmp_slice_bytes", inp, konst::slice::cmp::cmp_slice_bytes(ab, bb), ab.cmp(bb));
+            if a.len() != b.len() && !a.is_empty() && !b.is_empty() && a[0] != b[0] {
+                r.nt(&("[&str]", format!("{:?}{:?}", a, b)));
+            }
+        }
+    }
+    laws(r, "cmp_slice_str", &sl, &|a, b| konst::slice::cmp::cmp_slice_str(a, b), &|a, b| konst::slice::cmp::eq_slice_str(a, b));
+}
+
+fn others(r: &mut Report) {
+    use konst::other::cmp::*;
+    let os = [Ordering::Less, Ordering::Equal, Ordering::Greater];
+    for a in os {
+        for b in os {
+            let inp = || format!("T=Ordering a={:?} b={:?}", a, b);
+            ck_eq(r, "eq_ordering", inp, eq_ordering(a, b), a == b);
+            ck_ord(r, "cmp_ordering", inp, cmp_ordering(a, b), a.cmp(&b));
+            ck_eq(r, "const_eq!(ordering)", inp, const_eq!(a, b), a == b);
+            ck_ord(r, "const_cmp!(ordering)", inp, const_cmp!(a, b), a.cmp(&b));
+            for (oa, ob) in [(Some(a), Some(b)), (Some(a), None), (None, Some(b)), (None, None)] {
+                let inp = || format!("T=Option<Ordering> a={:?} b={:?}", oa, ob);
+                ck_eq(r, "eq_option_ordering", inp, eq_option_ordering(oa, ob), oa == ob);
+                ck_ord(r, "cmp_option_ordering", inp, cmp_option_ordering(oa, ob), oa.cmp(&ob));
+            }
+        }
+    }
+    let (p, q) = (PhantomData::<u8>, PhantomData::<u8>);
+    ck_eq(r, "eq_phantomdata", || "PhantomData".into(), eq_phantomdata(p, q), p == q);
+    ck_ord(r, "cmp_phantomdata", || "PhantomData".into(), cmp_phantomdata(p, q), p.cmp(&q));
+    ck_eq(r, "eq_phantompinned", || "PhantomPinned".into(), eq_phantompinned(PhantomPinned, PhantomPinned), PhantomPinned == PhantomPinned);
+    ck_ord(r, "cmp_phantompinned", || "PhantomPinned".into(), cmp_phantompinned(PhantomPinned, PhantomPinned), PhantomPinned.cmp(&PhantomPinned));
+}
+
+fn asserts(r: &mut Report) {
+    for a in [0u8, 1, 255] {
+        for b in [0u8, 1, 255] {
+            let g = catch(|| assertc_eq!(a, b)).is_err();
+            ck_eq(r, "assertc_eq!(u8) panics", || format!("a={} b={}", a, b), g, a != b);
+            let g = catch(|| assertc_ne!(a, b)).is_err();
+            ck_eq(r, "assertc_ne!(u8) panics", || format!("a={} b={}", a, b), g, a == b);
+        }
+    }
+    for a in ["", "a", "ab", "ñ"] {
+        for b in ["", "a", "ab", "ñ"] {
+            let g = catch(|| assertc_eq!(a, b)).is_err();
+            ck_eq(r, "assertc_eq!(str) panics", || format!("a={:?} b={:?}", a, b), g, a != b);
+            let g = catch(|| assertc_ne!(a, b, "msg ", a)).is_err();
+            ck_eq(r, "assertc_ne!(str) panics", || format!("a={:?} b={:?}", a, b), g, a == b);
+        }
+    }
+    for (a, b) in [('a', 'a'), ('a', 'ñ'), ('\u{10FFFF}', '\0')] {
+        let g = catch(|| assertc_eq!(a, b)).is_err();
+        ck_eq(r, "assertc_eq!(char) panics", || format!("a={:?} b={:?}", a, b), g, a != b);
+        let g = catch(|| assertc_ne!(a, b)).is_err();
+        ck_eq(r, "assertc_ne!(char) panics", || format!("a={:?} b={:?}", a, b), g, a == b);
+    }
+}
+
+pub fn run(cfg: &Cfg) -> (&'static str, Report, String, String) {
+    // 14 primitive types spread over the thread pool
+    let rep = par_for(cfg, 20, |i, r| match i {
+        0 => prim!(r, cfg, u8, "u8", int_vals!(u8), [1u8, 5, 255], cmp_u8, eq_option_u8, cmp_option_u8, eq_slice_u8, cmp_slice_u8, eq_option_slice_u8, cmp_option_slice_u8),
+        1 => prim!(r, cfg, u16, "u16", int_vals!(u16), [1u16, 5, u16::MAX], cmp_u16, eq_option_u16, cmp_option_u16, eq_slice_u16, cmp_slice_u16, eq_option_slice_u16, cmp_option_slice_u16),
+        2 => prim!(r, cfg, u32, "u32", int_vals!(u32), [1u32, 5, u32::MAX], cmp_u32, eq_option_u32, cmp_option_u32, eq_slice_u32, cmp_slice_u32, eq_option_slice_u32, cmp_option_slice_u32),
+        3 => prim!(r, cfg, u64, "u64", int_vals!(u64), [1u64, 5, u64::MAX], cmp_u64, eq_option_u64, cmp_option_u64, eq_slice_u64, cmp_slice_u64, eq_option_slice_u64, cmp_option_slice_u64),
+        4 => prim!(r, cfg, u128, "u128", int_vals!(u128), [1u128, 5, u128::MAX], cmp_u128, eq_option_u128, cmp_option_u128, eq_slice_u128, cmp_slice_u128, eq_option_slice_u128, cmp_option_slice_u128),
+        5 => prim!(r, cfg, usize, "usize", int_vals!(usize), [1usize, 5, usize::MAX], cmp_usize, eq_option_usize, cmp_option_usize, eq_slice_usize, cmp_slice_usize, eq_option_slice_usize, cmp_option_slice_usize),
+        6 => prim!(r, cfg, i8, "i8", int_vals!(i8), [-128i8, -1, 127], cmp_i8, eq_option_i8, cmp_option_i8, eq_slice_i8, cmp_slice_i8, eq_option_slice_i8, cmp_option_slice_i8),
+        7 => prim!(r, cfg, i16, "i16", int_vals!(i16), [i16::MIN, -1, i16::MAX], cmp_i16, eq_option_i16, cmp_option_i16, eq_slice_i16, cmp_slice_i16, eq_option_slice_i16, cmp_option_slice_i16),
+        8 => prim!(r, cfg, i32, "i32", int_vals!(i32), [i32::MIN, -1, i32::MAX], cmp_i32, eq_option_i32, cmp_option_i32, eq_slice_i32, cmp_slice_i32, eq_option_slice_i32, cmp_option_slice_i32),
+        9 => prim!(r, cfg, i64, "i64", int_vals!(i64), [i64::MIN, -1, i64::MAX], cmp_i64, eq_option_i64, cmp_option_i64, eq_slice_i64, cmp_slice_i64, eq_option_slice_i64, cmp_option_slice_i64),
+        10 => prim!(r, cfg, i128, "i128", int_vals!(i128), [i128::MIN, -1, i128::MAX], cmp_i128, eq_option_i128, cmp_option_i128, eq_slice_i128, cmp_slice_i128, eq_option_slice_i128, cmp_option_slice_i128),
+        11 => prim!(r, cfg, isize, "isize", int_vals!(isize), [isize::MIN, -1, isize::MAX], cmp_isize, eq_option_isize, cmp_option_isize, eq_slice_isize, cmp_slice_isize, eq_option_slice_isize, cmp_option_slice_isize),
+        12 => prim!(r, cfg, bool, "bool", vec![false, true], [false, true, true], cmp_bool, eq_option_bool, cmp_option_bool, eq_slice_bool, cmp_slice_bool, eq_option_slice_bool, cmp_option_slice_bool),
+        13 => prim!(r, cfg, char, "char", vec!['\0', 'a', 'b', 'ñ', '\u{D7FF}', '\u{E000}', '\u{10FFFF}'], ['a', 'ñ', '\u{10FFFF}'], cmp_char, eq_option_char, cmp_option_char, eq_slice_char, cmp_slice_char, eq_option_slice_char, cmp_option_slice_char),
+        14 => strings(r, cfg),
+        15 => {
+            nonzero!(r,
+                (NonZeroU8, u8, eq_nonzerou8, cmp_nonzerou8, eq_option_nonzerou8, cmp_option_nonzerou8),
+                (NonZeroI8, i8, eq_nonzeroi8, cmp_nonzeroi8, eq_option_nonzeroi8, cmp_option_nonzeroi8),
+                (NonZeroU16, u16, eq_nonzerou16, cmp_nonzerou16, eq_option_nonzerou16, cmp_option_nonzerou16),
+                (NonZeroI16, i16, eq_nonzeroi16, cmp_nonzeroi16, eq_option_nonzeroi16, cmp_option_nonzeroi16),
+                (NonZeroU32, u32, eq_nonzerou32, cmp_nonzerou32, eq_option_nonzerou32, cmp_option_nonzerou32),
+                (NonZeroI32, i32, eq_nonzeroi32, cmp_nonzeroi32, eq_option_nonzeroi32, cmp_option_nonzeroi32),
+                (NonZeroU64, u64, eq_nonzerou64, cmp_nonzerou64, eq_option_nonzerou64, cmp_option_nonzerou64),
+                (NonZeroI64, i64, eq_nonzeroi64, cmp_nonzeroi64, eq_option_nonzeroi64, cmp_option_nonzeroi64),
+                (NonZeroU128, u128, eq_nonzerou128, cmp_nonzerou128, eq_option_nonzerou128, cmp_option_nonzerou128),
+                (NonZeroI128, i128, eq_nonzeroi128, cmp_nonzeroi128, eq_option_nonzeroi128, cmp_option_nonzeroi128),
+                (NonZeroUsize, usize, eq_nonzerousize, cmp_nonzerousize, eq_option_nonzerousize, cmp_option_nonzerousize),
+                (NonZeroIsize, isize, eq_nonzeroisize, cmp_nonzeroisize, eq_option_nonzeroisize, cmp_option_nonzeroisize)
+            );
+        }
+        16 => {
+            ranges!(r,
+                (u8, vec![0u8, 1, 2, 255], eq_range_u8, eq_rangeinc_u8),
+                (u16, vec![0u16, 1, u16::MAX], eq_range_u16, eq_rangeinc_u16),
+                (u32, vec![0u32, 1, u32::MAX], eq_range_u32, eq_rangeinc_u32),
+                (u64, vec![0u64, 1, u64::MAX], eq_range_u64, eq_rangeinc_u64),
+                (u128, vec![0u128, 1, u128::MAX], eq_range_u128, eq_rangeinc_u128),
+                (usize, vec![0usize, 1, usize::MAX], eq_range_usize, eq_rangeinc_usize),
+                (char, vec!['\0', 'a', 'z', '\u{10FFFF}'], eq_range_char, eq_rangeinc_char)
+            );
+        }
+        17 => others(r),
+        18 => asserts(r),
+        _ => {}
+    });
+    (
+        "C16",
+        rep,
+        "all pairs of boundary values {MIN,MIN+1,-1,0,1,2,100,MAX-1,MAX} for the 12 integer types, bool, 7 chars; all pairs of slices of length <= 3 over three boundary values per type (+ Option, arrays of length 2); all pairs of strings <= 3 chars over {a,b,ñ,U+10FFFF}; slices of <= 2 strings / byte slices; 12 NonZero types; Range/RangeInclusive of 7 types over all 4-tuples of 3-4 bounds; Ordering, PhantomData, PhantomPinned; Option of each; all triples for the order laws".into(),
+        "one evaluation = one konst comparison (cmp_*/eq_* function, const_eq!/const_cmp!, const_eq_for!/const_cmp_for! in every comparator form: none, key closure, two-argument closure, function path; for slice/option/range/range_inclusive; assertc_eq!/assertc_ne! panic behaviour) compared with ==/Ord::cmp, plus the order laws (antisymmetry, cmp==Equal iff eq, transitivity) evaluated on konst's own results over all triples; non-trivial = distinct pairs (per type) of different-length non-empty slices/strings with different first elements, all scalar pairs, ranges with equal start and different end".into(),
+    )
+}
